@@ -17,6 +17,8 @@ STRS = ['', 'a', 'yes', 'No', '1', '1.5', '1:30', '~', 'null', '<<', '=', '0x1F'
         'a﻿b', '\x07', '\x1b[0m', '\U0001F600', '퟿', '', '�', ' a a', 'a  b', 'word ' * 20, '...', '%x', '@x', '`x', '[x', '{x', ']', '}', ',', '?', '? x', '-', '- ', ':', 'a:', ':a',
         'tru', 'True', 'OFF', '0o17', '1__0', '._', '.5', '5.', '1e5', '+1', '-0', '0.0', 'nan', '.NaN', 'inf', '1:2:3', '60:00', '2001-1-1', '2001-12-14T21:59:43Z',
         # indicator characters inside a word: only some positions / contexts make them indicators (the dumper's analysis and the scanners of both back-ends must agree)
+        # lines of a multi-line string that look like document markers or other structure once the emitter has indented them
+        'title\n---\nbody', 'a\n...\nb', 'x\n--- y\nz', 'a\n---', '\n---\n', 'k\n...', 'p\n- q\nr', 'p\n? q\n: r', 'a\n# b\nc', 'a\n%TAG\nb', "it's\n---\nhere", 'a\n --- \nb',
         'a?b', 'what?no', 'x?y=z', 'a,b', 'a[b', 'a]b', 'a{b}', 'a#b', 'a:b', 'a-b', 'a|b', 'a>b', 'a&b', 'a*b', 'a!b', 'a%b', 'a@b', 'a`b', 'x- y', 'x? y', 'http://a.b/c?d=e&f']
 def rfloat(rng):
     r = rng.random()
